@@ -18,6 +18,7 @@ import (
 	"strconv"
 	"strings"
 	"sync"
+	"sync/atomic"
 	"time"
 
 	"verifharness/kit"
@@ -62,7 +63,20 @@ func (w *worker) kill() {
 	w.cmd.Wait()
 }
 
+// hangs counts ops that timed out in this run: every one of them is already a violation, so later
+// ops get less and less patience (a scanner that spins on every unterminated literal must not turn the
+// run into hours).
+var hangs int64
+
 func opTimeout(op string) time.Duration {
+	switch h := atomic.LoadInt64(&hangs); {
+	case h >= 40:
+		return 300 * time.Millisecond
+	case h >= 12:
+		return time.Second
+	case h >= 3:
+		return 4 * time.Second
+	}
 	switch strings.SplitN(op, " ", 2)[0] {
 	case "live", "udfsrv", "udfwrite":
 		return 40 * time.Second
@@ -103,6 +117,7 @@ func (w *worker) ask(op string) (obs string, alive bool) {
 		}
 		return r.s, true
 	case <-time.After(opTimeout(op)):
+		atomic.AddInt64(&hangs, 1)
 		w.kill()
 		<-ch
 		return "X hang", false
